@@ -23,6 +23,13 @@ def vs(v):
     return str(v)
 
 
+def _range(flags):
+    fl = [str(x) for x in flags]
+    bs = int(fl[fl.index("-S") + 1]) if "-S" in fl else 0
+    bc = int(fl[fl.index("-B") + 1]) if "-B" in fl else 0
+    return {"bstart": bs, "bcount": bc}
+
+
 class Recorder:
     def __init__(self, a, obs=None):
         self.a = a
@@ -156,6 +163,8 @@ class Recorder:
         opts = {"force_full": "-F" in flags, "force_empty": "-E" in flags, "force_zero": "-Z" in flags,
                 "nocopy": "--force-nocopy" in flags,
                 "kill_after": "--test-kill-after-sync" in flags}
+        opts.update(_range(list(flags) + list(extra_args)))
+        opts["v3"] = self.a.conf.hash_size != 16 or any(x > 1 for x in self.a.conf.splits)
         pre_fs = self.last["fs"]
         args = list(flags) + list(extra_args)
         if midrun:
@@ -232,7 +241,7 @@ class Recorder:
         self.last_result = r
         de, pe = self._derr(r)
         out = {"exit": self._exit(r), "rc": r.rc, "derr": [list(x) for x in de], "perr": [list(x) for x in pe]}
-        self.lines.append({"e": "Check", "args": {"audit": "-a" in flags, "present": present, "flags": list(flags)},
+        self.lines.append({"e": "Check", "args": {"audit": "-a" in flags, "present": present, "flags": list(flags), "range": _range(flags)},
                            "state": self.state(), "out": out})
         return r, out
 
@@ -246,7 +255,7 @@ class Recorder:
         if sel is None:
             sel = {d: sorted(self.lines[-1]["state"]["cf"][d].keys()) for d in self.D}
         self.lines.append({"e": "Fix", "args": {"present": list(range(1, self.a.conf.np + 1)), "sel": sel,
-                                                "flags": list(flags)}, "state": st, "out": out})
+                                                "flags": list(flags), "range": _range(flags)}, "state": st, "out": out})
         return r, out
 
     def _fault_info(self, r, st):
